@@ -65,7 +65,8 @@ fn find_collision(items: impl Iterator<Item = (String, String)>) -> ClassResult 
     ClassResult { entities: n, collision }
 }
 
-const CLASSES: [&str; 8] = [
+const CLASSES: [&str; 9] = [
+    "deep-type-names",
     "type-names",
     "tuple-struct-names",
     "ref-struct-names",
@@ -76,10 +77,73 @@ const CLASSES: [&str; 8] = [
     "user-type-vs-generated",
 ];
 
+/// a pseudo-random structured type (depth <= 5) over a small base: builtin leaves, a user type, a
+/// type of another package, instances of a generic enum; tuples of 2-3 components, Vec, Ref, arrays, functions
+fn deep_type(x: &mut u64, depth: u32) -> TTy {
+    let mut next = |n: u64| -> u64 {
+        *x = mix(*x, 0x9e37_79b9_7f4a_7c15);
+        *x % n
+    };
+    let leaf = depth == 0 || next(4) == 0;
+    if leaf {
+        return match next(6) {
+            0 => TTy::TInt32,
+            1 => TTy::TBool,
+            2 => TTy::TString,
+            3 => st("P"),
+            4 => st("Lib::Color"),
+            // instances of a generic enum as monomorphisation names them
+            _ => TTy::TEnum { name: ["Opt__int32", "Opt__(int32,string)", "Opt__Vec[int32]"][next(3) as usize].to_string() },
+        };
+    }
+    match next(8) {
+        0 | 1 | 2 => {
+            let n = 2 + next(2) as usize;
+            TTy::TTuple { typs: (0..n).map(|_| deep_type(x, depth - 1)).collect() }
+        }
+        3 | 4 => TTy::TVec { elem: Box::new(deep_type(x, depth - 1)) },
+        5 => TTy::TRef { elem: Box::new(deep_type(x, depth - 1)) },
+        6 => TTy::TArray { len: 1 + next(2) as usize, elem: Box::new(deep_type(x, depth - 1)) },
+        _ => TTy::TFunc { params: vec![deep_type(x, depth - 1)], ret_ty: Box::new(deep_type(x, depth - 1)) },
+    }
+}
+
+fn legal_go_identifier(g: &str) -> bool {
+    g.chars().next().map_or(false, |c| c.is_ascii_alphabetic() || c == '_') && g.chars().all(|c| c.is_ascii_alphanumeric() || c == '_')
+}
+
 fn run_class(class: &str, big: bool) -> ClassResult {
     let ids3 = idents(if big { 4 } else { 3 });
     let ids2 = idents(3);
     match class {
+        // the struct name of a tuple type whatever its components: a legal Go identifier, and
+        // two distinct tuple types never share one
+        "deep-type-names" => {
+            let mut x = 0x5eed_u64;
+            let n = if big { 600_000 } else { 120_000 };
+            let mut seen: HashMap<String, String> = HashMap::new();
+            let mut res = ClassResult { entities: 0, collision: None };
+            for _ in 0..n {
+                let comps = 2 + (mix(x, 7) % 2) as usize;
+                let t = TTy::TTuple { typs: (0..comps).map(|_| deep_type(&mut x, 4)).collect() };
+                let g = go_type_name_for(&t);
+                let shown = format!("{:?}", t);
+                res.entities += 1;
+                if res.collision.is_some() {
+                    continue;
+                }
+                if !legal_go_identifier(&g) {
+                    res.collision = Some((format!("tuple type {shown}"), "(no other entity: the name is not a Go identifier)".into(), g));
+                } else if let Some(prev) = seen.get(&g) {
+                    if *prev != shown {
+                        res.collision = Some((format!("tuple type {prev}"), format!("tuple type {shown}"), g));
+                    }
+                } else {
+                    seen.insert(g, shown);
+                }
+            }
+            res
+        }
         // distinct user type names keep distinct, legal Go names
         "type-names" => find_collision(ids3.iter().map(|n| (format!("type {n}"), go_type_name_for(&st(n))))),
         "tuple-struct-names" => find_collision(ids2.iter().flat_map(|a| {
@@ -172,7 +236,9 @@ fn run_class(class: &str, big: bool) -> ClassResult {
 // -------------------------------------------------------- directed programs
 
 /// (id, gate, items, main body, expected stdout)
-const DIRECTED: [(&str, &str, &str, &str, &str); 24] = [
+const DIRECTED: [(&str, &str, &str, &str, &str); 26] = [
+    ("dyn-method-keyword", "", "trait Sh { fn range(Self) -> int32; fn len(Self) -> int32; }\nstruct Q { a: int32 }\nimpl Sh for Q { fn range(self: Q) -> int32 { self.a } fn len(self: Q) -> int32 { self.a + 1 } }\nfn through(d: dyn Sh) -> int32 { Sh::range(d) + Sh::len(d) }", "let _ = string_println(int32_to_string(through(Q { a: 3 })));", "7\n"),
+    ("inherent-method-keyword", "", "struct Q { a: int32 }\nimpl Q { fn select(self: Q) -> int32 { self.a } fn init(self: Q) -> int32 { self.a * 2 } }", "let q = Q { a: 3 }; let _ = string_println(int32_to_string(q.select() + Q::init(q)));", "9\n"),
     ("fn-len", "", "fn len(x: int32) -> int32 { x + 100 }", "let _ = string_println(int32_to_string(len(1) + string_len(\"abc\")));", "104\n"),
     ("fn-append", "", "fn append(x: int32, y: int32) -> int32 { x + y }", "let v: Vec[int32] = vec_new(); let v = vec_push(v, append(1, 2)); let _ = string_println(int32_to_string(vec_get(v, 0)));", "3\n"),
     ("fn-panic-println", "", "fn panic(x: int32) -> int32 { x }\nfn println(x: int32) -> int32 { x }", "let _ = string_println(int32_to_string(panic(1) + println(2)));", "3\n"),
